@@ -106,24 +106,26 @@ Elem(v, i) == IF v[1] = "array" THEN v[2][i] ELSE v[3]
 IsMap(v) == v[1] = "map" \/ v[1] = "mrep"
 MapLen(v) == IF v[1] = "map" THEN Len(v[2]) ELSE v[2]
 
-Max2(a, b) == IF a > b THEN a ELSE b
-RECURSIVE SumF(_, _), MaxF(_, _)
+\* TLC evaluates [i \in 1..n |-> e] lazily and again on every application: Mat forces it into a tuple once
+Mat(f) == f \o <<>>
+RECURSIVE SumF(_, _)
 SumF(f, n) == IF n = 0 THEN 0 ELSE f[n] + SumF(f, n - 1)
-MaxF(f, n) == IF n = 0 THEN 0 ELSE Max2(f[n], MaxF(f, n - 1))
+SetMax(S) == IF S = {} THEN 0 ELSE CHOOSE x \in S : \A y \in S : x >= y
+MaxF(f, n) == SetMax({f[i] : i \in 1..n})
 
 ---------------------------------------------------------------------------
 (* Complexity budget.  Height = depth of the deepest node below the root;  *)
 (* a Json payload's root is one level below its FieldValue.                *)
 RECURSIVE JNodes(_), JHeight(_), JLensOK(_)
 JNodes(j) ==
-  CASE j[1] = "jarr"  -> 1 + SumF([i \in 1..Len(j[2]) |-> JNodes(j[2][i])], Len(j[2]))
-    [] j[1] = "jobj"  -> 1 + SumF([i \in 1..Len(j[2]) |-> JNodes(j[2][i][2])], Len(j[2]))
+  CASE j[1] = "jarr"  -> 1 + SumF(Mat([i \in 1..Len(j[2]) |-> JNodes(j[2][i])]), Len(j[2]))
+    [] j[1] = "jobj"  -> 1 + SumF(Mat([i \in 1..Len(j[2]) |-> JNodes(j[2][i][2])]), Len(j[2]))
     [] j[1] = "jrep"  -> 1 + j[2] * JNodes(j[3])
     [] j[1] = "jorep" -> 1 + j[2] * JNodes(j[3])
     [] OTHER -> 1
 JHeight(j) ==
-  CASE j[1] = "jarr"  -> IF Len(j[2]) = 0 THEN 0 ELSE 1 + MaxF([i \in 1..Len(j[2]) |-> JHeight(j[2][i])], Len(j[2]))
-    [] j[1] = "jobj"  -> IF Len(j[2]) = 0 THEN 0 ELSE 1 + MaxF([i \in 1..Len(j[2]) |-> JHeight(j[2][i][2])], Len(j[2]))
+  CASE j[1] = "jarr"  -> IF Len(j[2]) = 0 THEN 0 ELSE 1 + MaxF(Mat([i \in 1..Len(j[2]) |-> JHeight(j[2][i])]), Len(j[2]))
+    [] j[1] = "jobj"  -> IF Len(j[2]) = 0 THEN 0 ELSE 1 + MaxF(Mat([i \in 1..Len(j[2]) |-> JHeight(j[2][i][2])]), Len(j[2]))
     [] j[1] = "jrep"  -> IF j[2] = 0 THEN 0 ELSE 1 + JHeight(j[3])
     [] j[1] = "jorep" -> IF j[2] = 0 THEN 0 ELSE 1 + JHeight(j[3])
     [] OTHER -> 0
@@ -136,15 +138,15 @@ JLensOK(j) ==
 
 RECURSIVE Nodes(_), Height(_), LensOK(_)
 Nodes(v) ==
-  CASE v[1] = "array" -> 1 + SumF([i \in 1..Len(v[2]) |-> Nodes(v[2][i])], Len(v[2]))
-    [] v[1] = "map"   -> 1 + SumF([i \in 1..Len(v[2]) |-> Nodes(v[2][i][2])], Len(v[2]))
+  CASE v[1] = "array" -> 1 + SumF(Mat([i \in 1..Len(v[2]) |-> Nodes(v[2][i])]), Len(v[2]))
+    [] v[1] = "map"   -> 1 + SumF(Mat([i \in 1..Len(v[2]) |-> Nodes(v[2][i][2])]), Len(v[2]))
     [] v[1] = "rep"   -> 1 + v[2] * Nodes(v[3])
     [] v[1] = "mrep"  -> 1 + v[2] * Nodes(v[3])
     [] v[1] = "json"  -> 1 + JNodes(v[2])
     [] OTHER -> 1
 Height(v) ==
-  CASE v[1] = "array" -> IF Len(v[2]) = 0 THEN 0 ELSE 1 + MaxF([i \in 1..Len(v[2]) |-> Height(v[2][i])], Len(v[2]))
-    [] v[1] = "map"   -> IF Len(v[2]) = 0 THEN 0 ELSE 1 + MaxF([i \in 1..Len(v[2]) |-> Height(v[2][i][2])], Len(v[2]))
+  CASE v[1] = "array" -> IF Len(v[2]) = 0 THEN 0 ELSE 1 + MaxF(Mat([i \in 1..Len(v[2]) |-> Height(v[2][i])]), Len(v[2]))
+    [] v[1] = "map"   -> IF Len(v[2]) = 0 THEN 0 ELSE 1 + MaxF(Mat([i \in 1..Len(v[2]) |-> Height(v[2][i][2])]), Len(v[2]))
     [] v[1] = "rep"   -> IF v[2] = 0 THEN 0 ELSE 1 + Height(v[3])
     [] v[1] = "mrep"  -> IF v[2] = 0 THEN 0 ELSE 1 + Height(v[3])
     [] v[1] = "json"  -> 1 + JHeight(v[2])
@@ -208,12 +210,12 @@ ToJ(v) ==
     [] v[1] = "bytes"  -> JFail
     [] v[1] = "text"   -> <<"jstr", v[2]>>
     [] v[1] = "json"   -> v[2]
-    [] v[1] = "vector" -> <<"jarr", [i \in 1..Len(v[2]) |-> <<"ju64", v[2][i]>>]>>
-    [] v[1] = "array"  -> LET js == [i \in 1..Len(v[2]) |-> ToJ(v[2][i])]
+    [] v[1] = "vector" -> <<"jarr", Mat([i \in 1..Len(v[2]) |-> <<"ju64", v[2][i]>>])>>
+    [] v[1] = "array"  -> LET js == Mat([i \in 1..Len(v[2]) |-> ToJ(v[2][i])])
                           IN IF \E i \in 1..Len(js) : js[i][1] = "fail" THEN JFail ELSE <<"jarr", js>>
-    [] v[1] = "map"    -> LET js == [i \in 1..Len(v[2]) |-> ToJ(v[2][i][2])]
+    [] v[1] = "map"    -> LET js == Mat([i \in 1..Len(v[2]) |-> ToJ(v[2][i][2])])
                           IN IF \E i \in 1..Len(js) : js[i][1] = "fail" \/ v[2][i][1][1] # "text" THEN JFail
-                             ELSE <<"jobj", [i \in 1..Len(js) |-> <<v[2][i][1][2], js[i]>>]>>
+                             ELSE <<"jobj", Mat([i \in 1..Len(js) |-> <<v[2][i][1][2], js[i]>>])>>
     [] v[1] = "null"   -> <<"jnull">>
     [] v[1] = "rep"    -> LET j == ToJ(v[3]) IN IF j[1] = "fail" /\ v[2] > 0 THEN JFail ELSE <<"jrep", v[2], j>>
     [] v[1] = "mrep"   -> LET j == ToJ(v[3]) IN IF j[1] = "fail" /\ v[2] > 0 THEN JFail ELSE <<"jorep", v[2], j>>
@@ -228,8 +230,8 @@ Shape(j) ==
     [] j[1] = "ji64"  -> <<"i64", j[2]>>
     [] j[1] = "jf64"  -> <<"f64", j[2]>>
     [] j[1] = "jstr"  -> <<"text", j[2]>>
-    [] j[1] = "jarr"  -> <<"array", [i \in 1..Len(j[2]) |-> Shape(j[2][i])]>>
-    [] j[1] = "jobj"  -> <<"map", [i \in 1..Len(j[2]) |-> << <<"text", j[2][i][1]>>, Shape(j[2][i][2]) >>]>>
+    [] j[1] = "jarr"  -> <<"array", Mat([i \in 1..Len(j[2]) |-> Shape(j[2][i])])>>
+    [] j[1] = "jobj"  -> <<"map", Mat([i \in 1..Len(j[2]) |-> << <<"text", j[2][i][1]>>, Shape(j[2][i][2]) >>])>>
     [] j[1] = "jrep"  -> <<"rep", j[2], Shape(j[3])>>
     [] j[1] = "jorep" -> <<"mrep", j[2], Shape(j[3])>>
 
@@ -248,9 +250,9 @@ Stored(v) ==
   CASE v[1] = "i64"    -> IF Neg(v[2]) THEN v ELSE <<"u64", v[2]>>
     [] v[1] = "f32"    -> <<"f64", v[2]>>
     [] v[1] = "json"   -> Shape(v[2])
-    [] v[1] = "vector" -> <<"array", [i \in 1..Len(v[2]) |-> <<"u64", v[2][i]>>]>>
-    [] v[1] = "array"  -> <<"array", [i \in 1..Len(v[2]) |-> Stored(v[2][i])]>>
-    [] v[1] = "map"    -> <<"map", [i \in 1..Len(v[2]) |-> <<v[2][i][1], Stored(v[2][i][2])>>]>>
+    [] v[1] = "vector" -> <<"array", Mat([i \in 1..Len(v[2]) |-> <<"u64", v[2][i]>>])>>
+    [] v[1] = "array"  -> <<"array", Mat([i \in 1..Len(v[2]) |-> Stored(v[2][i])])>>
+    [] v[1] = "map"    -> <<"map", Mat([i \in 1..Len(v[2]) |-> <<v[2][i][1], Stored(v[2][i][2])>>])>>
     [] v[1] = "rep"    -> <<"rep", v[2], Stored(v[3])>>
     [] v[1] = "mrep"   -> <<"mrep", v[2], Stored(v[3])>>
     [] OTHER -> v
@@ -262,21 +264,21 @@ RECURSIVE Norm(_, _)
 Norm(t, v) ==
   CASE t[1] = "i64"    -> IF v[1] = "u64" /\ FitsI64(v[2]) THEN <<"i64", v[2]>> ELSE v
     [] t[1] = "f32"    -> IF v[1] = "f64" /\ F32ReadBack(v[2]) THEN <<"f32", RoundF32(v[2])>> ELSE v
-    [] t[1] = "vector" -> IF AllU16(v) THEN <<"vector", [i \in 1..Len(v[2]) |-> v[2][i][2]]>> ELSE v
+    [] t[1] = "vector" -> IF AllU16(v) THEN <<"vector", Mat([i \in 1..Len(v[2]) |-> v[2][i][2]])>> ELSE v
     [] t[1] = "json"   -> IF v[1] = "json" THEN v
                           ELSE LET j == ToJ(v) IN IF j[1] = "fail" THEN v ELSE <<"json", j>>
     [] t[1] = "array"  ->
          IF v[1] # "array" THEN v
          ELSE LET ts == t[2] s == v[2] IN
               CASE Len(ts) = 0 -> v
-                [] Len(ts) = 1 -> <<"array", [i \in 1..Len(s) |-> Norm(ts[1], s[i])]>>
-                [] OTHER       -> <<"array", [i \in 1..Len(s) |-> IF i <= Len(ts) THEN Norm(ts[i], s[i]) ELSE s[i]]>>
+                [] Len(ts) = 1 -> <<"array", Mat([i \in 1..Len(s) |-> Norm(ts[1], s[i])])>>
+                [] OTHER       -> <<"array", Mat([i \in 1..Len(s) |-> IF i <= Len(ts) THEN Norm(ts[i], s[i]) ELSE s[i]])>>
     [] t[1] = "map"    ->
          IF v[1] # "map" THEN v
          ELSE LET es == t[2] s == v[2] IN
-              IF IsWild(es) THEN <<"map", [i \in 1..Len(s) |-> <<s[i][1], Norm(es[1][2], s[i][2])>>]>>
-              ELSE <<"map", [i \in 1..Len(s) |-> LET j == Find(es, s[i][1])
-                                                 IN <<s[i][1], IF j = 0 THEN s[i][2] ELSE Norm(es[j][2], s[i][2])>>]>>
+              IF IsWild(es) THEN <<"map", Mat([i \in 1..Len(s) |-> <<s[i][1], Norm(es[1][2], s[i][2])>>])>>
+              ELSE <<"map", Mat([i \in 1..Len(s) |-> LET j == Find(es, s[i][1])
+                                                 IN <<s[i][1], IF j = 0 THEN s[i][2] ELSE Norm(es[j][2], s[i][2])>>])>>
     [] t[1] = "option" -> IF v[1] = "null" THEN v ELSE Norm(t[2], v)
     [] OTHER -> v
 
@@ -287,14 +289,14 @@ Prune(t, v) ==
          IF v[1] # "array" THEN v
          ELSE LET ts == t[2] s == v[2] IN
               CASE Len(ts) = 0 -> v
-                [] Len(ts) = 1 -> <<"array", [i \in 1..Len(s) |-> Prune(ts[1], s[i])]>>
-                [] OTHER       -> <<"array", [i \in 1..Len(s) |-> IF i <= Len(ts) THEN Prune(ts[i], s[i]) ELSE s[i]]>>
+                [] Len(ts) = 1 -> <<"array", Mat([i \in 1..Len(s) |-> Prune(ts[1], s[i])])>>
+                [] OTHER       -> <<"array", Mat([i \in 1..Len(s) |-> IF i <= Len(ts) THEN Prune(ts[i], s[i]) ELSE s[i]])>>
     [] t[1] = "map"    ->
          IF v[1] # "map" \/ Len(t[2]) = 0 THEN v
          ELSE LET es == t[2] s == v[2] IN
-              IF IsWild(es) THEN <<"map", [i \in 1..Len(s) |-> <<s[i][1], Prune(es[1][2], s[i][2])>>]>>
+              IF IsWild(es) THEN <<"map", Mat([i \in 1..Len(s) |-> <<s[i][1], Prune(es[1][2], s[i][2])>>])>>
               ELSE LET kept == SelectSeq(s, LAMBDA e : Find(es, e[1]) # 0)
-                   IN <<"map", [i \in 1..Len(kept) |-> <<kept[i][1], Prune(es[Find(es, kept[i][1])][2], kept[i][2])>>]>>
+                   IN <<"map", Mat([i \in 1..Len(kept) |-> <<kept[i][1], Prune(es[Find(es, kept[i][1])][2], kept[i][2])>>])>>
     [] t[1] = "option" -> IF v[1] = "null" THEN v ELSE Prune(t[2], v)
     [] OTHER -> v
 
@@ -310,18 +312,18 @@ RECURSIVE Canon(_, _)
 Canon(t, v) ==
   CASE t[1] = "i64"    -> <<"i64", v[2]>>
     [] t[1] = "f32"    -> IF v[1] = "f32" THEN v ELSE <<"f32", RoundF32(v[2])>>
-    [] t[1] = "vector" -> IF v[1] = "vector" THEN v ELSE <<"vector", [i \in 1..Len(v[2]) |-> v[2][i][2]]>>
+    [] t[1] = "vector" -> IF v[1] = "vector" THEN v ELSE <<"vector", Mat([i \in 1..Len(v[2]) |-> v[2][i][2]])>>
     [] t[1] = "json"   -> LET j == ToJ(v) IN IF j[1] = "fail" THEN Stored(v) ELSE <<"json", j>>
     [] t[1] = "array"  ->
          LET ts == t[2] s == v[2] IN
          CASE Len(ts) = 0 -> Stored(v)
-           [] Len(ts) = 1 -> <<"array", [i \in 1..Len(s) |-> Canon(ts[1], s[i])]>>
-           [] OTHER       -> <<"array", [i \in 1..Len(s) |-> Canon(ts[i], s[i])]>>
+           [] Len(ts) = 1 -> <<"array", Mat([i \in 1..Len(s) |-> Canon(ts[1], s[i])])>>
+           [] OTHER       -> <<"array", Mat([i \in 1..Len(s) |-> Canon(ts[i], s[i])])>>
     [] t[1] = "map"    ->
          LET es == t[2] s == v[2] IN
          CASE Len(es) = 0 -> Stored(v)
-           [] IsWild(es)  -> <<"map", [i \in 1..Len(s) |-> <<s[i][1], Canon(es[1][2], s[i][2])>>]>>
-           [] OTHER       -> <<"map", [i \in 1..Len(s) |-> <<s[i][1], Canon(es[Find(es, s[i][1])][2], s[i][2])>>]>>
+           [] IsWild(es)  -> <<"map", Mat([i \in 1..Len(s) |-> <<s[i][1], Canon(es[1][2], s[i][2])>>])>>
+           [] OTHER       -> <<"map", Mat([i \in 1..Len(s) |-> <<s[i][1], Canon(es[Find(es, s[i][1])][2], s[i][2])>>])>>
     [] t[1] = "option" -> IF v[1] = "null" THEN v
                           ELSE LET c == Canon(t[2], v)
                                IN IF c[1] = "json" /\ c[2][1] = "jnull" THEN Null ELSE c
@@ -340,10 +342,10 @@ Ex(t, s) ==
     [] t[1] = "f32"    -> IF s[1] = "f64" /\ F32InRange(s[2]) THEN <<"f32", RoundF32(s[2])>> ELSE Err
     [] t[1] = "bytes"  -> IF s[1] = "bytes" THEN s
                           ELSE IF s[1] = "array" /\ \A i \in 1..Len(s[2]) : s[2][i][1] = "u64" /\ FitsU8(s[2][i][2])
-                               THEN <<"bytes", [i \in 1..Len(s[2]) |-> s[2][i][2]]>> ELSE Err
+                               THEN <<"bytes", Mat([i \in 1..Len(s[2]) |-> s[2][i][2]])>> ELSE Err
     [] t[1] = "text"   -> IF s[1] = "text" THEN s ELSE Err
     [] t[1] = "json"   -> LET j == ToJ(s) IN IF j[1] = "fail" THEN Err ELSE <<"json", j>>
-    [] t[1] = "vector" -> IF AllU16(s) THEN <<"vector", [i \in 1..Len(s[2]) |-> s[2][i][2]]>> ELSE Err
+    [] t[1] = "vector" -> IF AllU16(s) THEN <<"vector", Mat([i \in 1..Len(s[2]) |-> s[2][i][2]])>> ELSE Err
     [] t[1] = "array"  ->
          IF s[1] = "rep" THEN
               (IF Len(t[2]) = 0 THEN s
@@ -351,11 +353,11 @@ Ex(t, s) ==
                ELSE Err)
          ELSE IF s[1] # "array" THEN Err
          ELSE LET ts == t[2] IN
-              CASE Len(ts) = 0 -> s
-                [] Len(ts) = 1 -> LET xs == [i \in 1..Len(s[2]) |-> Ex(ts[1], s[2][i])]
+              CASE Len(ts) = 0 -> IF HasNaN(s) THEN Err ELSE s          \* generic FieldValue::try_from
+                [] Len(ts) = 1 -> LET xs == Mat([i \in 1..Len(s[2]) |-> Ex(ts[1], s[2][i])])
                                   IN IF \E i \in 1..Len(xs) : IsErr(xs[i]) THEN Err ELSE <<"array", xs>>
                 [] OTHER       -> IF Len(s[2]) # Len(ts) THEN Err
-                                  ELSE LET xs == [i \in 1..Len(ts) |-> Ex(ts[i], s[2][i])]
+                                  ELSE LET xs == Mat([i \in 1..Len(ts) |-> Ex(ts[i], s[2][i])])
                                        IN IF \E i \in 1..Len(xs) : IsErr(xs[i]) THEN Err ELSE <<"array", xs>>
     [] t[1] = "map"    ->
          IF s[1] = "mrep" THEN
@@ -365,21 +367,24 @@ Ex(t, s) ==
                ELSE Err)
          ELSE IF s[1] # "map" THEN Err
          ELSE LET es == t[2] m == s[2] IN
-              CASE Len(es) = 0 -> s
+              CASE Len(es) = 0 -> IF HasNaN(s) THEN Err ELSE s
                 [] IsWild(es)  ->
-                     LET xs == [i \in 1..Len(m) |-> IF m[i][1][1] # es[1][1][1] THEN Err ELSE Ex(es[1][2], m[i][2])]
+                     LET xs == Mat([i \in 1..Len(m) |-> IF m[i][1][1] # es[1][1][1] THEN Err ELSE Ex(es[1][2], m[i][2])])
                      IN IF \E i \in 1..Len(xs) : IsErr(xs[i]) THEN Err
-                        ELSE <<"map", [i \in 1..Len(m) |-> <<m[i][1], xs[i]>>]>>
+                        ELSE <<"map", Mat([i \in 1..Len(m) |-> <<m[i][1], xs[i]>>])>>
                 [] OTHER       ->
-                     LET xs == [i \in 1..Len(m) |-> LET j == Find(es, m[i][1])
-                                                    IN IF j = 0 THEN Err ELSE Ex(es[j][2], m[i][2])]
+                     LET xs == Mat([i \in 1..Len(m) |-> LET j == Find(es, m[i][1])
+                                                    IN IF j = 0 THEN Err ELSE Ex(es[j][2], m[i][2])])
                      IN IF \E i \in 1..Len(xs) : IsErr(xs[i]) THEN Err
                         \* a missing key must be one whose type validates Null (Option, or Json)
                         ELSE IF \E j \in 1..Len(es) : Find(m, es[j][1]) = 0 /\ ~VI(es[j][2], Null) THEN Err
-                        ELSE <<"map", [i \in 1..Len(m) |-> <<m[i][1], xs[i]>>]>>
+                        ELSE <<"map", Mat([i \in 1..Len(m) |-> <<m[i][1], xs[i]>>])>>
     [] t[1] = "option" -> IF s[1] = "null" THEN s ELSE Ex(t[2], s)
 
-\* Document::try_from for one field: serialise (NaN cannot be), extract, budget
+\* FieldEntry::coerce: Null is only validated; anything else goes through its CBOR form, extract and the budget
+Coerce(t, v) == IF v[1] = "null" THEN (IF t[1] = "option" THEN v ELSE Err)
+                ELSE LET x == Ex(t, Stored(v)) IN IF IsErr(x) THEN Err ELSE IF ComplexOK(x) THEN x ELSE Err
+\* Document::try_from for one field: serialise (a NaN cannot be), extract, budget
 Typed(t, v) == IF HasNaN(v) THEN Err
                ELSE LET x == Ex(t, Stored(v)) IN IF IsErr(x) THEN Err ELSE IF ComplexOK(x) THEN x ELSE Err
 
@@ -404,7 +409,7 @@ FindName(fs, name) == LET S == {i \in 1..Len(fs) : fs[i][1] = name} IN IF S = {}
 
 \* SchemaBuilder: fields added in the order of the declaration
 Build(decl, ver) == [ver |-> ver, next |-> Len(decl) + 1,
-                     fields |-> [i \in 1..Len(decl) |-> <<decl[i][1], decl[i][2], decl[i][3], i>>]]
+                     fields |-> Mat([i \in 1..Len(decl) |-> <<decl[i][1], decl[i][2], decl[i][3], i>>])]
 
 CanUpgrade(decl, ver, old) ==
   /\ ver > old.ver
@@ -416,9 +421,9 @@ Upgrade(decl, ver, old) ==
   LET isNew(i) == FindName(old.fields, decl[i][1]) = 0
       rank(i) == Cardinality({k \in 1..i : isNew(k)})
   IN [ver |-> ver, next |-> old.next + Cardinality({k \in 1..Len(decl) : isNew(k)}),
-      fields |-> [i \in 1..Len(decl) |->
+      fields |-> Mat([i \in 1..Len(decl) |->
                     <<decl[i][1], decl[i][2], decl[i][3],
-                      IF isNew(i) THEN old.next + rank(i) - 1 ELSE old.fields[FindName(old.fields, decl[i][1])][4]>>]]
+                      IF isNew(i) THEN old.next + rank(i) - 1 ELSE old.fields[FindName(old.fields, decl[i][1])][4]>>])]
 
 FindIdx(fs, idx) == LET S == {i \in 1..Len(fs) : fs[i][4] = idx} IN IF S = {} THEN 0 ELSE CHOOSE i \in S : TRUE
 
@@ -428,13 +433,13 @@ FindIdx(fs, idx) == LET S == {i \in 1..Len(fs) : fs[i][4] = idx} IN IF S = {} TH
 ReadDoc(s, doc) ==
   IF \E i \in 1..Len(doc) : doc[i][1] >= s.next THEN Err
   ELSE LET kept == SelectSeq(doc, LAMBDA e : FindIdx(s.fields, e[1]) # 0)
-           out  == [i \in 1..Len(kept) |-> LET t == s.fields[FindIdx(s.fields, kept[i][1])][2]
-                                           IN <<kept[i][1], Norm(t, Prune(t, kept[i][2]))>>]
+           out  == Mat([i \in 1..Len(kept) |-> LET t == s.fields[FindIdx(s.fields, kept[i][1])][2]
+                                           IN <<kept[i][1], Norm(t, Prune(t, kept[i][2]))>>])
        IN IF /\ \A i \in 1..Len(out) : FieldValid(s.fields[FindIdx(s.fields, out[i][1])][2], out[i][2])
              /\ \A k \in 1..Len(s.fields) : s.fields[k][2][1] # "option" => \E i \in 1..Len(out) : out[i][1] = s.fields[k][4]
           THEN <<"ok", out>> ELSE Err
 
-StoredDoc(doc) == [i \in 1..Len(doc) |-> <<doc[i][1], Stored(doc[i][2])>>]
+StoredDoc(doc) == Mat([i \in 1..Len(doc) |-> <<doc[i][1], Stored(doc[i][2])>>])
 
 ---------------------------------------------------------------------------
 (* The derive macros: Rust type -> FieldType (determine_field_type).       *)
@@ -458,5 +463,5 @@ DeriveFT(r) ==
     [] r[1] = "box" -> DeriveFT(r[2])
     [] r[1] = "rmap" -> <<"map", << << (IF r[2][1] = "string" THEN TextWild
                                         ELSE IF r[2][1] \in SignedInts THEN I64Wild ELSE BytesWild), DeriveFT(r[3]) >> >>>>
-    [] r[1] = "struct" -> <<"map", [i \in 1..Len(r[2]) |-> << <<"text", r[2][i][1]>>, DeriveFT(r[2][i][2]) >>]>>
+    [] r[1] = "struct" -> <<"map", Mat([i \in 1..Len(r[2]) |-> << <<"text", r[2][i][1]>>, DeriveFT(r[2][i][2]) >>])>>
 =============================================================================
